@@ -43,6 +43,7 @@ def run(ctx):
         bodies = [b for n, b in sorted(fx.mir.items()) if n == name or n.startswith(name + "::{closure")]
         if not bodies or bodies[0].name != name and name not in fx.mir:
             raise F.AnchorLost("reader not found: %s" % name)
+        bodies += reader_helpers(fx, fx.mir[name])
         n_readers += 1
         r1_reader(chk, fx, fx.mir[name], bodies, adt, succ)
         r4_strict_reader(chk, fx, name)
@@ -61,23 +62,45 @@ def run(ctx):
     r3_errors_integrity(chk, fx)
 
 
+def reader_helpers(fx, root):
+    """Private helpers a reader hands its NsReader to (part of the reader moved into an inherent / free fn): analysed with it.
+    Other types' ReadXml impls are readers of their own."""
+    out, seen = [], {root.name}
+    work = [root]
+    while work:
+        b = work.pop()
+        for c in b.calls():
+            hb = None if c.macro else (fx.mir.get(c.rdef) or fx.mir.get(c.defn))
+            if hb is None or hb.crate != root.crate or hb.name in seen or " as netconf::message::ReadXml>" in hb.name or "::tests::" in hb.name:
+                continue
+            if not any("NsReader" in hb.local_ty(i) for i in range(1, hb.raw["arg_count"] + 1)):
+                continue
+            seen.add(hb.name)
+            out.append(hb)
+            out += [x for n, x in sorted(fx.mir.items()) if n.startswith(hb.name + "::{closure")]
+            work.append(hb)
+    return out
+
+
 def is_success_agg(s, adt, succ):
     rv = s["rv"]
     return rv["k"] == "agg" and rv.get("adt") == adt and rv.get("variant") in succ
 
 
 def no_error_guards(b, bb):
-    """All (description, predicate call) whose 'no error' edge dominates bb."""
+    """All (description, predicate call) whose 'no error' edge dominates bb (a guard kept in a bool local counts as long as no
+    rpc-error can be recorded between computing it and using it)."""
     out = []
+    pushes = [c for c in b.calls() if c.is_fn("rpc::error::Errors::push")]
     for c in b.calls():
         if c.is_fn("rpc::error::Errors::is_empty"):
-            if b.guarded_by_call(bb, c, want=True):
+            if b.guarded_by_call(bb, c, want=True, stale_after=pushes):
                 out.append(("Errors::is_empty", c))
         if c.is_fn("Iterator::any") and _any_is_severity_error(b, c):
-            if b.guarded_by_call(bb, c, want=False):
+            if b.guarded_by_call(bb, c, want=False, stale_after=pushes):
                 out.append(("!errors.iter().any(severity == Error)", c))
         if c.is_fn("Iterator::all") and _all_is_not_severity_error(b, c):
-            if b.guarded_by_call(bb, c, want=True):
+            if b.guarded_by_call(bb, c, want=True, stale_after=pushes):
                 out.append(("errors.iter().all(severity != Error)", c))
         pol = _helper_polarity(b, c)
         if pol is not None and b.guarded_by_call(bb, c, want=(pol == "no-error")):
@@ -224,14 +247,14 @@ def r1_reader(chk, fx, root, bodies, adt, succ):
     if n_succ == 0:
         raise F.AnchorLost("%s constructs no success variant" % root.name)
     # pushes sharing a loop with a success construction need the `pending result is none` guard
-    b = root
-    pushes = [c for c in b.calls() if c.is_fn("rpc::error::Errors::push")]
-    chk.call_sites += len(pushes)
-    if not pushes:
+    all_pushes = [(b, c) for b in bodies for c in b.calls() if c.is_fn("rpc::error::Errors::push")]
+    chk.call_sites += len(all_pushes)
+    if not all_pushes:
         raise F.AnchorLost("%s never records an rpc-error" % root.name)
-    succ_blocks = [bi for bi, bl in enumerate(b.blocks) if not bl.get("cleanup")
-                   for s in bl["stmts"] if s["k"] == "assign" and is_success_agg(s, adt, succ)]
-    for p in pushes:
+    for (b, p) in all_pushes:
+        b._fx = fx
+        succ_blocks = [bi for bi, bl in enumerate(b.blocks) if not bl.get("cleanup")
+                       for s in bl["stmts"] if s["k"] == "assign" and is_success_agg(s, adt, succ)]
         in_loop_with_success = False
         inner = None
         for h in b.loop_heads():
@@ -265,8 +288,11 @@ def r1_reader(chk, fx, root, bodies, adt, succ):
                 n_errs += 1
                 l = F.op_base(s["rv"]["fields"][0])
                 ok = l is not None and ERRORS_TY in bb.local_ty(l)
-                org = bb.backward_origins(l, through_call=lambda c: False) if l is not None else []
-                bad = [o for o in org if o["k"] == "call" and o["call"] is not None and not o["call"].is_fn("Errors::new")]
+                # .. created by Errors::new() here, or handed back by one of this reader's own helpers (analysed with it)
+                helper_names = {x.name for x in bodies}
+                org = bb.backward_origins(l, through_call=lambda c: c.is_fn("Try::branch")) if l is not None else []
+                bad = [o for o in org if o["k"] == "call" and o["call"] is not None and not o["call"].is_fn("Errors::new")
+                       and not ((o["call"].rdef or o["call"].defn) in helper_names)]
                 chk.instance("C08/R3", "Errs(..) carries the accumulated Errors value", bb.name, loc_of(s.get("sp")),
                              holds=ok and not bad, key="C08/R3 %s Errs-payload-origin" % fn)
     if n_errs == 0:
@@ -375,12 +401,14 @@ def r4_strict_reader(chk, fx, name):
     recognise fails the reply: an arm that skips unnamed elements or text hides an error reported in a wrapper element, a vendor
     error element or a nested position.  Every loop of the reader: no lenient arm, and the catch-all arm returns Err."""
     from . import readers as R
-    loops = [lp for lp in R.reader_loops(fx) if lp.fn == name or lp.fn.startswith(name + "::{closure")]
+    names = [name] + ([h.name for h in reader_helpers(fx, fx.mir[name])] if name in fx.mir else [])
+    loops = [lp for lp in R.reader_loops(fx) if any(lp.fn == n or lp.fn.startswith(n + "::{closure") for n in names)]
     if not loops:
         raise F.AnchorLost("no reader loop found in %s" % name)
     for lp in loops:
-        lenient = R.lenient_arms(lp)
-        chk.instance("C08/R4", "%s rejects content it does not recognise (no arm skips an unnamed element or text)" % lp.label(), lp.fn,
+        # elements only: skipped character data cannot hide an <rpc-error>
+        lenient = [a for a in R.lenient_arms(lp) if a.kinds & {"Start", "Empty"}]
+        chk.instance("C08/R4", "%s rejects elements it does not recognise (no arm skips an unnamed element)" % lp.label(), lp.fn,
                      loc_of((lenient or [lp])[0].sp), holds=not lenient, key="C08/R4 %s skips-unrecognised-content" % lp.label(),
                      detail=None if not lenient else "an error reported in a form or position the reader does not know is taken for success")
         ca = [a for a in lp.arms if a.catch_all]
